@@ -181,7 +181,8 @@ theorem builder_reuse_decodes (ext : Ext) (dn : List Field → List Arr → R D)
         exact this
       obtain ⟨hd1, cols, hd2, hd3, hd4, hd5⟩ :=
         Props.C01.C01_build_decode ext fields rows arrays hschema hcov
-          (fun root0 hr' => by rw [hr] at hr'; cases hr'; exact hsafe) hrows_ok hone
+          (fun root0 hr' => by rw [hr] at hr'; cases hr'; exact hsafe) (fun x hx => noRaw_ssa x (hrows_ok x hx))
+          (Or.inl hrows_ok) hone
       exact ⟨hd1, cols, hd2, hd3, hd4, hd5⟩
   refine ⟨arrays, hdec, ?_⟩
   cases hfk : (finishers ops)[k] with
